@@ -567,8 +567,9 @@ def _run(chk, tier, rp):
         if not is_cov and body_len > 0:
             not_covered.setdefault(f'{envkey} {v["dir"]} {v["object"]}', why_not)
             chk.count('not_covered_vectors')
-            if why_not.startswith('no case for protocol version'):
-                # the dissector has code for this message, but its version switch has no arm for a version the definition covers:
+            if why_not.startswith(('no case for protocol version', 'no code for direction')):
+                # the dissector has code for this message, but its version switch has no arm for a version the definition covers
+                # (or the arm has no code for a direction the definition covers):
                 # the walk consumes nothing of a non-empty body
                 res = chk.violation({'check': 'version_not_dissected', **base, 'buffer': 0},
                                     {'vector': {k: x for k, x in v.items() if k not in ('fmap', 'payloads')}, 'why': why_not,
